@@ -695,15 +695,20 @@ class RecordContextMatcher:
                 loop_index_var_name = gen.target.id
                 resolved_gen = self.eval(gen)
                 if resolved_gen is not NONE_OBJECT:
-                    for val in resolved_gen:
-                        self.data[loop_index_var_name] = val
-                        if not all(self.eval(cond) for cond in gen.ifs):
-                            continue
-                        if len(gens) > 0:
-                            for subval in recursive_generator(gens):
-                                yield subval
-                        else:
-                            yield val
+                    try:
+                        for val in resolved_gen:
+                            self.data[loop_index_var_name] = val
+                            if not all(self.eval(cond) for cond in gen.ifs):
+                                continue
+                            if len(gens) > 0:
+                                for subval in recursive_generator(gens):
+                                    yield subval
+                            else:
+                                yield val
+                    finally:
+                        # The loop variable only lives as long as its generator, so a later
+                        # generator expression in the same selector can use the name again
+                        self.data.pop(loop_index_var_name, None)
 
             def generator_expr():
                 """
